@@ -178,6 +178,8 @@ def explore_config(args):
                 break
             if status == 'abort':
                 res['aborted'][type(r).__name__ + ':' + str(r)[:60]] += 1
+                if want_records and isinstance(r, BoundReached):
+                    records.append((list(eng.log), False))
                 continue
             h, out = r
             res['paths'] += 1
@@ -188,7 +190,7 @@ def explore_config(args):
                 res['failures'].append({'kind': kind, 'detail': detail, 'values': {k: str(v) for k, v in values.items()},
                                         'decisions': decisions, 'confirmed': conf})
             if want_records:
-                records.append(mod.record(h, out, eng) if hasattr(mod, 'record') else (out, list(eng.log)))
+                records.append((list(eng.log), True))
             # translation validation of the engine on this path
             if (res['paths'] - 1) % validate_every == 0 and res['validated'] < max_validate and not h.failures \
                     and getattr(mod, 'VALIDATE', True):
